@@ -9,8 +9,8 @@ ALL = ["C%02d" % i for i in range(1, 21)]
 
 NOTE_COMMON = "Trusted: Coq 8.16.1 kernel (vm_compute inside some proofs; no native_compute); hand-written executable model validated on every run by the differential correspondence check against the Go code built from /repo's working tree; extraction with ExtrOcamlBasic only; harness files injected by go build -overlay -tags verif. Full per-run list (Print Assumptions output, modelled-not-verified parts) in the evidence file's trusted_base."
 OVERRIDE = {
- "C07": dict(technique="Coq proof (conversion bounds, emission rules, restart simulation over the engine model) + restart correspondence (real node stopped and restarted on its data dir vs model prediction)",
-             text="Theorems in coq/Properties/C07.v over the restart model coq/Restart (record stream of the engine model -> load filter -> HandleLoad replay into a fresh engine): deadline conversion bounds for seconds/minutes, emission rules per persistence flag, recovered holds = persisted live holds for the proved sub-language, refutations for the defects found. Tie: generated histories run on a real in-process node with real AOF files, the node is restarted in a fresh process on the same directory, the censuses before/after are compared with the model prediction and with the property monitor.", note=NOTE_COMMON),
+ "C07": dict(technique="Coq proof (conversion bounds, emission rules, all-expired restart, refutation witnesses over the engine model) + restart correspondence (real node stopped and restarted on its data dir vs model prediction)",
+             text="Theorems in coq/Properties/C07.v over the restart model coq/Restart (record stream of the engine model -> load filter -> HandleLoad replay into a fresh engine): deadline conversion bounds for seconds/minutes, emission rules per persistence flag, a restart after every record has expired recovers nothing, recover is a fold over the record list (compositional), an end-to-end instance, and refutations for the defects found; the general simulation (recovered holds = persisted live holds for every history) is NOT proved: it is covered by the differential run only (coq/Restart/STATUS.md). Tie: generated histories run on a real in-process node with real AOF files, the node is restarted in a fresh process on the same directory, the censuses before/after are compared with the model prediction and with the property monitor.", note=NOTE_COMMON),
  "C08": dict(technique="Coq proof over a byte-exact AOF file model (writer crash shapes, reader) + exhaustive-per-workload truncation correspondence against the real AofFile/LoadAofFiles",
              text="Theorems in coq/Properties/C08.v: every image the writer can leave after a crash at any byte has the crash shape (cut header, or whole header + n whole records + torn piece, value file a prefix); on the (now repaired) source every crash image and every reader buffer size gives a successful start that delivers a prefix of the written records, and the second restart delivers that prefix followed by what was appended in between; refutation witnesses for the unrepaired variants and for the remaining value-file defect. Which variant is in force is derived from the source text on every run; both variants are proved. Tie: for every generated workload EVERY truncation offset of the append file (all 64 residues + header) x consistent value-file cuts is loaded by the real code and by the extracted model and diffed; prefix monitor on the Go side; replays start a full node on the image.", note=NOTE_COMMON + " OS model: a file is a byte list, a write may be cut at any byte, rename/remove atomic, completed syscalls not reordered; fsync not modelled."),
  "C09": dict(technique="Coq proof (ring buffer refines log + cursors; follower applied = prefix of leader log for all schedules) + in-package ring correspondence + two-process cut/reconnect scenario",
